@@ -19,12 +19,12 @@ PROP = dict(
     # no-failing-input-found; the on/off and literal/variable oracles give concrete failing inputs
     mismatch_is_violation=False,
     rule="(1) model tie: every raw-string program of /repo/abra_core/tests/integration/e2e_bytecode.rs (read from the current tree), "
-         "11 rule-directed snippets and (quick) 160 / (thorough) 2000 programs of a typed generator (ints, floats, bools, arrays, a struct, "
+         "11 rule-directed snippets and (quick) 160 / (thorough) 1000 programs of a typed generator (ints, floats, bools, arrays, a struct, "
          "if/while, compound assignment, bare expression statements, boundary literals): the real assembly before `optimize` is given "
          "to Opt.optimize and (first and last pass in quick, every pass in thorough) to Opt.pass; the answer must equal the real "
          "optimized assembly line for line incl. annotations; (2) each program runs with the optimizer on and off: output, final "
          "value, error kind and message must agree; (3) every int operator (+ - * / % ^ < <= > >= ==, unary -) on the c15 boundary "
-         "grid (quick: 16 trouble pairs + 20 seeded pairs; thorough: all 49x49) and every float operator on a 23-value boundary set "
+         "grid (quick: 16 trouble pairs + 20 seeded pairs; thorough: each of the 49 grid values with 8 seeded partners) and every float operator on a 23-value boundary set "
          "(±0, subnormals, 2^53±1, ±MAX, ±inf, NaN) in the forms var/var, lit/lit, var/lit, lit/var, compound assignment with literal "
          "and with variable, each with the optimizer on and off, all compared with the var/var optimizer-off run; "
          "distinct = distinct request; non-trivial = the optimized assembly differs from the input",
